@@ -224,3 +224,36 @@ Proof.
         destruct (existsb (fun y => item_eqb y x) (items t)) eqn:E; [apply existsb_eqb_In in E; tauto|reflexivity].
     + split; [intros x; apply count_spec|]. split; [exact Hnodes|]. split; congruence.
 Qed.
+
+(* ---- the outcome (error class / returned item) of EVERY operation, without the index ---------------- *)
+Definition xoutcome (s : st) (o : xop) : res (option item) :=
+  match o with
+  | Op o => match guard s o with None => Ok None | Some e => Err e end
+  | Pop i => match norm_index i (zlen (items s)) with
+             | Some p => match nth_error (items s) p with Some v => Ok (Some v) | None => Err EINDEX end
+             | None => Err EINDEX
+             end
+  | Remove x => if negb (is_item x) then Err ETYPE
+                else if existsb (fun y => item_eqb y x) (items s) then Ok None else Err EVALUE
+  | Reverse | Clear => Ok None
+  end.
+
+Theorem xstep_outcome s o : Inv s -> Strict s -> snd (xstep s o) = xoutcome s o.
+Proof.
+  intros HI HS. destruct o as [o|i|x| |]; cbn [xstep xoutcome snd].
+  - now rewrite (step_error_exact s o HI).
+  - destruct (norm_index i (zlen (items s))) as [p|] eqn:Ep.
+    + pose proof (norm_index_some _ _ _ Ep) as [Hlt Hp].
+      assert (Hr : - zlen (items s) <= i < zlen (items s)).
+      { destruct (Z_lt_dec i (- zlen (items s))); [exfalso|destruct (Z_lt_dec i (zlen (items s))); [lia|exfalso]];
+          assert (Hn : ~ (- zlen (items s) <= i < zlen (items s))) by lia; apply norm_index_none in Hn; congruence. }
+      destruct (pop_in_range s i HI Hr) as (p0 & v & Hp0 & Hv & Hs & _).
+      assert (p0 = p) by lia. subst p0. rewrite Hv. destruct (pop s i) as [s1 r]. cbn [snd] in Hs. now subst r.
+    + apply norm_index_none in Ep. now rewrite pop_out_of_range.
+  - destruct (is_item x) eqn:Hx; cbn [negb]; [|now rewrite remove_junk].
+    destruct (existsb (fun y => item_eqb y x) (items s)) eqn:E.
+    + apply existsb_eqb_In in E. destruct (remove_present s x HI Hx E) as (p & _ & _ & -> & _). reflexivity.
+    + rewrite remove_absent; [reflexivity|exact HI|exact Hx|]. intros Hin. apply existsb_eqb_In in Hin. congruence.
+  - destruct (reverse_spec s HI HS) as (-> & _). reflexivity.
+  - destruct (clear_spec s HI) as (-> & _). reflexivity.
+Qed.
